@@ -54,42 +54,43 @@ fn supervise(args: &[String]) -> i32 {
         return code;
     }
     let sig = status.signal().unwrap_or(0);
+    if args.get(1).map(|a| a == "--replay").unwrap_or(false) {
+        // replaying one saved case: the worker dying on it is the violation itself
+        println!("VIOLATION property={prop} replay={}", args.get(2).cloned().unwrap_or_default());
+        eprintln!("  the worker dies (signal {sig}) on this case");
+        return 1;
+    }
     eprintln!("worker for {prop} died with signal {sig}; attributing through side files");
-    // each side file holds the case a thread was about to run; re-run each alone
-    let mut culprit: Option<PathBuf> = None;
+    // each side file holds the case a thread was about to run; re-run each alone, from a durable copy
+    let rdir = std::env::var_os("VERIF_REPLAY_OUT").map(PathBuf::from).unwrap_or_else(|| verif_root().join("replays")).join(&prop);
+    let _ = std::fs::create_dir_all(&rdir);
     if let Ok(rd) = std::fs::read_dir(side_dir()) {
         let mut files: Vec<PathBuf> = rd.flatten().map(|e| e.path()).filter(|p| p.file_name().map(|f| f.to_string_lossy().starts_with(&format!("{prop}-"))).unwrap_or(false)).collect();
         files.sort();
         for f in files {
-            let st = Command::new(&exe).arg("--worker").arg(&prop).arg("--replay").arg(&f).status();
+            let dst = rdir.join(format!("death-{}", f.file_name().unwrap().to_string_lossy()));
+            if std::fs::copy(&f, &dst).is_err() {
+                continue;
+            }
+            let st = Command::new(&exe).arg("--worker").arg(&prop).arg("--replay").arg(&dst).stdout(std::process::Stdio::null()).status();
             match st {
                 Ok(s) if s.code().is_none() => {
-                    culprit = Some(f);
-                    break;
-                }
-                Ok(s) if s.code() == Some(1) => {
-                    // replays as an ordinary violation: the worker printed the VIOLATION line itself
+                    println!("VIOLATION property={prop} replay={}", dst.display());
+                    eprintln!("  the worker dies (signal {:?}) on this case: the operation must not abort, overflow the stack or exhaust memory", s.signal());
                     return 1;
                 }
-                _ => {}
+                Ok(s) if s.code() == Some(1) => {
+                    println!("VIOLATION property={prop} replay={}", dst.display());
+                    return 1;
+                }
+                _ => {
+                    let _ = std::fs::remove_file(&dst);
+                }
             }
         }
     }
-    match culprit {
-        Some(f) => {
-            let dir = std::env::var_os("VERIF_REPLAY_OUT").map(PathBuf::from).unwrap_or_else(|| verif_root().join("replays")).join(&prop);
-            let _ = std::fs::create_dir_all(&dir);
-            let dst = dir.join(format!("death-{}", f.file_name().unwrap().to_string_lossy()));
-            let _ = std::fs::copy(&f, &dst);
-            println!("VIOLATION property={prop} replay={}", dst.display());
-            eprintln!("the worker dies (signal) on this case: a panic-free / terminating operation is required here");
-            1
-        }
-        None => {
-            eprintln!("INCONCLUSIVE: worker died with signal {sig} but no saved case reproduces it");
-            2
-        }
-    }
+    eprintln!("INCONCLUSIVE: worker died with signal {sig} but no saved case reproduces it");
+    2
 }
 
 fn work(args: &[String], defs: Vec<PropDef>) -> i32 {
